@@ -579,6 +579,65 @@ func ParseRecord(rec string) (crypto.PublicKey, string, error) {
 	return nil, "", errors.New("unknown key type " + t["k"])
 }
 
+// FormatRecord: the key record the owner of a key publishes for it (RFC 6376 3.6.1 / RFC 8463): the harness's own
+// rendering, for keys that come without a record file.
+func FormatRecord(pub crypto.PublicKey) string {
+	switch k := pub.(type) {
+	case *rsa.PublicKey:
+		der, err := x509.MarshalPKIXPublicKey(k)
+		if err != nil {
+			panic(err)
+		}
+		return "v=DKIM1; k=rsa; p=" + base64.StdEncoding.EncodeToString(der)
+	case ed25519.PublicKey:
+		return "v=DKIM1; k=ed25519; p=" + base64.StdEncoding.EncodeToString(k)
+	}
+	panic(fmt.Sprintf("vc08.FormatRecord: %T", pub))
+}
+
+// RecordCarries: does the p= tag of the (possibly malformed) record hold this key in any of the usual encodings,
+// whatever k= says?
+func RecordCarries(rec string, pub crypto.PublicKey) bool {
+	p := ""
+	for _, t := range strings.Split(rec, ";") {
+		if j := strings.IndexByte(t, '='); j >= 0 && strings.TrimSpace(t[:j]) == "p" {
+			p = strings.Join(strings.Fields(t[j+1:]), "")
+		}
+	}
+	raw, err := base64.StdEncoding.DecodeString(p)
+	if err != nil || len(raw) == 0 {
+		return false
+	}
+	var encs [][]byte
+	switch k := pub.(type) {
+	case *rsa.PublicKey:
+		if der, err := x509.MarshalPKIXPublicKey(k); err == nil {
+			encs = append(encs, der)
+		}
+		encs = append(encs, x509.MarshalPKCS1PublicKey(k))
+	case ed25519.PublicKey:
+		encs = append(encs, []byte(k))
+		if der, err := x509.MarshalPKIXPublicKey(k); err == nil {
+			encs = append(encs, der)
+		}
+	}
+	for _, e := range encs {
+		if bytes.Equal(e, raw) {
+			return true
+		}
+	}
+	return false
+}
+
+// RecordPath: the documented name of the record file of a key file ("In the same directory .dns files are generated"):
+// .key replaced by .dns, .dns appended to other names.  Paths are "/"-separated and relative to the key directory.
+func RecordPath(keyRel string) string {
+	if strings.HasSuffix(keyRel, ".key") {
+		return keyRel[:len(keyRel)-4] + ".dns"
+	}
+	return keyRel + ".dns"
+}
+
 // SamePublic: the same public key?
 func SamePublic(a, b crypto.PublicKey) bool {
 	if a == nil || b == nil {
@@ -1276,4 +1335,42 @@ func (r *Raw) handle(c net.Conn) {
 			w("500 5.5.1 what")
 		}
 	}
+}
+
+// ---------------------------------------------------------------- time as an input (round 6)
+
+// The clock of the signer.  checks/c08.py replaces time.Now in the non-test files of internal/modify/dkim by
+// vc08.Now (overlay, textual) and gives go-msgauth a setter for its package variable `now`; TestVerifC08Clock,
+// which does NOT run in parallel with the other tests, sets the manual clock, everything else reads the wall clock.
+var (
+	clockMu     sync.Mutex
+	clockManual bool
+	clockAt     time.Time
+)
+
+// Now is the manual clock when one is set, the wall clock otherwise.
+func Now() time.Time {
+	clockMu.Lock()
+	defer clockMu.Unlock()
+	if clockManual {
+		return clockAt
+	}
+	return time.Now()
+}
+
+func Since(t time.Time) time.Duration { return Now().Sub(t) }
+func Until(t time.Time) time.Duration { return t.Sub(Now()) }
+
+// SetClockMs sets the manual clock to ms milliseconds after the epoch.
+func SetClockMs(ms int64) {
+	clockMu.Lock()
+	clockManual, clockAt = true, time.UnixMilli(ms)
+	clockMu.Unlock()
+}
+
+// WallClock switches the manual clock off.
+func WallClock() {
+	clockMu.Lock()
+	clockManual = false
+	clockMu.Unlock()
 }
